@@ -65,7 +65,7 @@ class TlcResult:
 
     def counterexample(self):
         i = self.out.find('Error:')
-        return self.out[i:i + 20000] if i >= 0 else self.out[-4000:]
+        return self.out[i:i + 3000000] if i >= 0 else self.out[-4000:]
 
 
 def parse_tlc(out, res):
